@@ -228,6 +228,18 @@ func (x *Exec) callCommonVals(st *State, cc *ssa.CallCommon, fnv Val, args []Val
 		con = x.v.cf.FuncTypes[tname]
 	}
 	if con == nil {
+		// a function-typed struct field: keyed by <StructType>.<field>
+		if u, ok := cc.Value.(*ssa.UnOp); ok {
+			if fa, ok := u.X.(*ssa.FieldAddr); ok {
+				pt := fa.X.Type().Underlying().(*types.Pointer).Elem()
+				key := typeName(pt) + "." + pt.Underlying().(*types.Struct).Field(fa.Field).Name()
+				if c := x.v.cf.FuncTypes[key]; c != nil {
+					con, tname = c, key
+				}
+			}
+		}
+	}
+	if con == nil {
 		// keyed by function + operand text (e.g. walk.cfn, withAllocLocks.cb)
 		key := shortName(st.top().fn) + "." + x.operandText(cc.Value)
 		con = x.v.cf.FuncTypes[key]
@@ -324,13 +336,16 @@ func (x *Exec) applyContract(st *State, con *Contract, cname string, pnames []st
 		}
 	}
 	env2 := &Env{x: x, st: st, old: pre, vars: vars, entry: st.entry}
-	for _, en := range con.Ensures {
+	for _, en := range append(append([]*Clause(nil), con.Ensures...), con.Postulates...) {
 		g, err := env2.evalBool(en.E)
 		if err != nil {
 			x.errorf("%s: ensures %q of %s: %v", x.shortFn(x.fn), en.Src, cname, err)
 			continue
 		}
 		st.assume(g)
+	}
+	if len(con.Postulates) > 0 {
+		x.v.notePostulate(cname)
 	}
 	x.v.noteUse(x.shortFn(x.fn), cname, con)
 	return res
